@@ -282,7 +282,7 @@ pub fn solve(seed: u64, n: usize, out: &str) {
             t.push(b);
         }
         let nn = t.len() - k;
-        let choice = r.below(6);
+        let choice = r.below(8);
         let (tau, left_n, right_n, lsq, layout): (Vec<f64>, usize, usize, bool, &'static str) = match choice {
             0 | 1 => (greville(&t, k), 0, 0, false, "one-site-per-coefficient"),
             2 if k == 4 => {
@@ -305,6 +305,32 @@ pub fn solve(seed: u64, n: usize, out: &str) {
                 tau[0] = a;
                 tau[m - 1] = b;
                 (tau, 0, 0, true, "least-squares")
+            }
+            6 => {
+                // both END sites strictly inside the domain (the end conditions then sit at interior points): the Greville
+                // sites with the first and the last moved part of the way towards their neighbours, which keeps every
+                // site inside the support of its basis function (Schoenberg-Whitney)
+                let mut g = greville(&t, k);
+                let m = g.len();
+                let w = r.uniform(0.15, 0.6);
+                g[0] += w * (g[1] - g[0]);
+                g[m - 1] -= w * (g[m - 1] - g[m - 2]);
+                (g, 0, 0, false, "interior-sites")
+            }
+            7 => {
+                // least squares on sites that stop short of both ends: contracted Greville sites (so that every
+                // coefficient has data: full rank) with the midpoints between them as surplus
+                let mut g = greville(&t, k);
+                let m = g.len();
+                g[0] += 0.4 * (g[1] - g[0]);
+                g[m - 1] -= 0.4 * (g[m - 1] - g[m - 2]);
+                let mut tau = vec![];
+                for w in 0..g.len() {
+                    tau.push(g[w]);
+                    if w + 1 < g.len() && r.chance(0.6) { tau.push(0.5 * (g[w] + g[w + 1])); }
+                }
+                if tau.len() == g.len() { tau.insert(1, 0.5 * (g[0] + g[1])); }
+                (tau, 0, 0, true, "least-squares-interior")
             }
             5 => {
                 // mismatched counts: must be an error
